@@ -2104,6 +2104,98 @@ class Engine:
     raise Unsupported("starred expression")
 
   # ================================================================================================================
+  # frame check (syntactic): contracts are functional -- the function must not keep state outside its arguments
+
+  MUTATORS = {"append", "pop", "add", "update", "extend", "insert", "remove", "clear", "setdefault", "discard",
+              "popitem", "sort", "reverse", "appendleft"}
+
+  @staticmethod
+  def _mutable_init(node):
+    if isinstance(node, (ast.Dict, ast.List, ast.Set, ast.ListComp, ast.DictComp, ast.SetComp)):
+      return True
+    if isinstance(node, ast.Call):
+      f = ast.unparse(node.func)
+      return f.split(".")[-1] in ("dict", "list", "set", "defaultdict", "OrderedDict", "Counter", "deque", "bytearray")
+    return False
+
+  def frame_violations(self, c, fn, module):
+    """Names of module-level / class-level mutable objects that the function mutates in place (or rebinds through
+    `global`).  Such state makes the result depend on earlier calls, which no functional contract can describe."""
+    out = []
+    mod_mut = {n for n, v in module.assigns.items() if self._mutable_init(v)}
+    cls = c.qual.split(".")[0] if "." in c.qual else None
+    cls_mut = {a for (k, a), v in module.class_assigns.items() if k == cls and self._mutable_init(v)} if cls else set()
+    if cls and cls in module.classes:
+      for nd in module.classes[cls].body:       # annotated class attributes:  _cache: dict = {}
+        if isinstance(nd, ast.AnnAssign) and isinstance(nd.target, ast.Name) and nd.value is not None and \
+            self._mutable_init(nd.value):
+          cls_mut.add(nd.target.id)
+    init_assigned = set()
+    if cls and f"{cls}.__init__" in module.funcs:
+      for nd in ast.walk(module.funcs[f"{cls}.__init__"]):
+        if isinstance(nd, (ast.Assign, ast.AnnAssign, ast.AugAssign)):
+          for t in (nd.targets if isinstance(nd, ast.Assign) else [nd.target]):
+            if isinstance(t, ast.Attribute) and isinstance(t.value, ast.Name) and t.value.id == "self":
+              init_assigned.add(t.attr)
+    local = self.assigned_names(fn.body) | {a.arg for a in fn.args.args + fn.args.kwonlyargs}
+
+    def root(n):
+      while isinstance(n, ast.Subscript):
+        n = n.value
+      return n
+    # classes whose instances legitimately carry state between calls (documented caches / generator state)
+    stateful_ok = {"EcCurve": {"_table", "_table_size", "_cache"}, "Generator": {"key", "seed"}, "TestStructure": None}
+    is_init = c.qual.endswith(".__init__")
+    for nd in ast.walk(fn):
+      if isinstance(nd, ast.Global):
+        out += [f"global {n}" for n in nd.names]
+      # writes to attributes of `self` outside __init__: per-object state that survives the call (check objects are
+      # process-wide singletons, so this is call-history dependence)
+      if cls and not is_init and isinstance(nd, (ast.Assign, ast.AugAssign, ast.AnnAssign)):
+        for t in (nd.targets if isinstance(nd, ast.Assign) else [nd.target]):
+          for e in (t.elts if isinstance(t, (ast.Tuple, ast.List)) else [t]):
+            if isinstance(e, ast.Attribute) and isinstance(e.value, ast.Name) and e.value.id == "self":
+              allowed = stateful_ok.get(cls, set())
+              if allowed is not None and e.attr not in allowed:
+                out.append(f"attribute self.{e.attr} written outside __init__")
+      if cls and not is_init and isinstance(nd, ast.Call) and isinstance(nd.func, ast.Attribute) and \
+          nd.func.attr in self.MUTATORS:
+        r0 = root(nd.func.value)
+        if isinstance(r0, ast.Attribute) and isinstance(r0.value, ast.Name) and r0.value.id == "self":
+          allowed = stateful_ok.get(cls, set())
+          if allowed is not None and r0.attr not in allowed:
+            out.append(f"attribute self.{r0.attr} mutated outside __init__")
+      tgt = None
+      if isinstance(nd, (ast.Assign, ast.AugAssign, ast.AnnAssign)):
+        for t in (nd.targets if isinstance(nd, ast.Assign) else [nd.target]):
+          if isinstance(t, ast.Subscript):
+            tgt = root(t)
+      elif isinstance(nd, ast.Call) and isinstance(nd.func, ast.Attribute) and nd.func.attr in self.MUTATORS:
+        tgt = root(nd.func.value)
+      if tgt is None:
+        continue
+      if isinstance(tgt, ast.Name) and tgt.id in mod_mut and tgt.id not in local:
+        out.append(f"module-level {tgt.id}")
+      if (isinstance(tgt, ast.Attribute) and isinstance(tgt.value, ast.Name) and tgt.value.id == "self"
+          and tgt.attr in cls_mut and tgt.attr not in init_assigned):
+        out.append(f"class-level {cls}.{tgt.attr}")
+      elif (cls and not is_init and isinstance(tgt, ast.Attribute) and isinstance(tgt.value, ast.Name)
+            and tgt.value.id == "self"):
+        allowed = stateful_ok.get(cls, set())
+        if allowed is not None and tgt.attr not in allowed:
+          out.append(f"attribute self.{tgt.attr} mutated outside __init__")
+    return sorted(set(out))
+
+  def emit_frame(self, c, fn, module):
+    self.cur = c
+    for what in self.frame_violations(c, fn, module):
+      if what in getattr(c, "frame_ok", ()):
+        continue
+      st = State([])
+      self.emit(st, "frame", f"{c.qual}/frame:no state outside the arguments ({what})", False,
+                clause=f"{c.qual} mutates {what}: its result may depend on earlier calls")
+
+  # ================================================================================================================
   # driver: verify one function against its contract
 
   def verify(self, c, fn_node=None, module=None):
@@ -2118,6 +2210,7 @@ class Engine:
     if fn is None:
       return dict(status="missing", reason=f"{c.target} not found in working tree")
     self.cur_fn = fn
+    self.emit_frame(c, fn, module)
     self.cur_loops = source.loops_of(fn)
     self.node_ord = {}
     counts = {}
